@@ -388,11 +388,226 @@ def composite_oracle(run, drv=None):
             run.corr("log_prob_shapes", case, impl_shapes, model_shapes)
         if not torch.equal(out["other"] if ns is None or it != InteractionType.RANDOM else out["other"][0], td["other"]):
             bad.append("an unrelated entry changed")
+        # frame: the module writes its advertised out_keys and nothing else
+        with set_composite_lp_aggregate(agg):
+            adv = {k if isinstance(k, str) else tuple(k) for k in mod.out_keys}
+        written = {k for k in out.keys(True, True) if k not in set(td.keys(True, True))}
+        missing, extra = sorted(map(str, adv - written)), sorted(map(str, written - adv))
+        if missing or extra:
+            heads_only = agg and not missing and set(extra) <= {"x_log_prob", "y_log_prob"}
+            run.oracle_fail("probabilistic_frame", case, f"advertised out_keys never written: {missing}; entries written that are not out_keys: {extra}",
+                            "prob_frame:aggregate:per-head-log-probs" if heads_only else "prob_frame:other")
+        else:
+            run.oracle_ok("probabilistic_frame")
         if bad:
             run.oracle_fail("probabilistic", case, "; ".join(bad), f"composite:{second}:{'agg' if agg else 'perkey'}:{ns}:{it}")
         else:
             run.oracle_ok("probabilistic")
             run.count("prob.composite_ok", f"{second}/{'agg' if agg else 'perkey'}/{ns}/{it}")
+
+
+def composite_direct_oracle(run):
+    """CompositeDistribution used directly (no module): for nested head names, a name_map, aggregate on/off and a sample shape —
+    samples carry the write names and `shape + batch`; log_prob / entropy are the (reduced) sums of the heads' own, or one
+    `<name>_log_prob` / `<name>_entropy` entry per head; mode / mean are the heads'; cdf then icdf is the identity on Normal heads,
+    also when icdf has to compute the cdf itself."""
+    from tensordict import TensorDict
+    from tensordict.nn import CompositeDistribution, set_composite_lp_aggregate
+
+    def indep(loc, scale):
+        return D.Independent(D.Normal(loc, scale), 1)
+    for second, nested, mapped, agg, shape in itertools.product(["normal_feature", "indep_normal", "categorical"], [False, True], [False, True],
+                                                               [True, False], [(), (4,)]):
+        case = ["composite_direct", second, "nested" if nested else "flat", "name_map" if mapped else "-", "aggregate" if agg else "per-key", list(shape)]
+        run.case(("composite_direct", second, nested, mapped, agg, shape))
+        torch.manual_seed(5)
+        yname = ("ag", "y") if nested else "y"
+        ypar = {"logits": torch.randn(3, 5)} if second == "categorical" else {"loc": torch.randn(3, 2), "scale": torch.rand(3, 2) + 0.5}
+        params = TensorDict({"x": {"loc": torch.randn(3), "scale": torch.rand(3) + 0.5}, yname: ypar}, [3])
+        ycls = {"normal_feature": D.Normal, "indep_normal": indep, "categorical": D.Categorical}[second]
+        xw = "xs" if mapped else "x"
+        hx = D.Normal(params["x", "loc"], params["x", "scale"])
+        hy = ycls(**params[yname].to_dict())
+        bad = []
+        try:
+            with warnings.catch_warnings():
+                warnings.simplefilter("ignore")
+                with time_limit(60), set_composite_lp_aggregate(agg):
+                    dist = CompositeDistribution(params, {"x": D.Normal, yname: ycls}, name_map={"x": "xs"} if mapped else None)
+                    smp = dist.sample(torch.Size(shape))
+                    lp = dist.log_prob(smp.clone())
+                    ent = dist.entropy()
+                    mode = dist.mode
+                    mean = dist.mean if second != "categorical" else None
+                    cdf = icdf = icdf2 = None
+                    if second == "normal_feature":
+                        cdf = dist.cdf(smp.clone())
+                        icdf = dist.icdf(cdf.clone())
+                        icdf2 = dist.icdf(smp.clone())
+        except TimeoutError:
+            raise
+        except Exception as e:  # noqa: BLE001
+            run.oracle_fail("composite_direct", case, f"raised {type(e).__name__}: {str(e)[:120]}", f"composite_direct:raised:{type(e).__name__}")
+            continue
+
+        def suff(name, s):
+            return (*name[:-1], name[-1] + s) if isinstance(name, tuple) else name + s
+        if tuple(smp.batch_size) != (*shape, 3):
+            bad.append(f"sample batch_size {tuple(smp.batch_size)}")
+        if set(smp.keys(True, True)) != {xw, yname}:
+            bad.append(f"sample keys {sorted(map(str, smp.keys(True, True)))}")
+        else:
+            lx, ly = hx.log_prob(smp[xw]), hy.log_prob(smp[yname])
+            ly_red = ly.sum(-1) if second == "normal_feature" else ly
+            if agg:
+                if not isinstance(lp, torch.Tensor) or tuple(lp.shape) != (*shape, 3) or not torch.allclose(lp, lx + ly_red):
+                    bad.append("aggregated log_prob is not the reduced sum of the heads' log-probs")
+            else:
+                for nm, want in ((suff(xw, "_log_prob"), lx), (suff(yname, "_log_prob"), ly)):
+                    got = lp.get(nm, None) if not isinstance(lp, torch.Tensor) else None
+                    if got is None or got.shape != want.shape or not torch.allclose(got, want):
+                        bad.append(f"log_prob entry {nm}")
+                if not isinstance(lp, torch.Tensor) and tuple(lp.batch_size) != (*shape, 3):
+                    bad.append(f"log_prob tensordict batch_size {tuple(lp.batch_size)}")
+            ex, ey = hx.entropy(), hy.entropy()
+            ey_red = ey.sum(-1) if second == "normal_feature" else ey
+            if agg:
+                if not isinstance(ent, torch.Tensor) or tuple(ent.shape) != (3,) or not torch.allclose(ent, ex + ey_red):
+                    bad.append("aggregated entropy is not the reduced sum of the heads' entropies")
+            else:
+                for nm, want in ((suff(xw, "_entropy"), ex), (suff(yname, "_entropy"), ey)):
+                    got = ent.get(nm, None) if not isinstance(ent, torch.Tensor) else None
+                    if got is None or got.shape != want.shape or not torch.allclose(got, want):
+                        bad.append(f"entropy entry {nm}")
+            if not (torch.allclose(mode[xw], hx.mode) and torch.equal(mode[yname].float(), hy.mode.float())):
+                bad.append("mode")
+            if mean is not None and not (torch.allclose(mean[xw], hx.mean) and torch.allclose(mean[yname], hy.mean)):
+                bad.append("mean")
+            if cdf is not None:
+                if not (torch.allclose(cdf[suff(xw, "_cdf")], hx.cdf(smp[xw])) and torch.allclose(cdf[suff(yname, "_cdf")], hy.cdf(smp[yname]))):
+                    bad.append("cdf entries")
+                for which, r in (("icdf(cdf)", icdf), ("icdf(sample)", icdf2)):
+                    if not (torch.allclose(r[suff(xw, "_icdf")], smp[xw], atol=1e-3) and torch.allclose(r[suff(yname, "_icdf")], smp[yname], atol=1e-3)):
+                        bad.append(which + " is not the sample")
+        if bad:
+            run.oracle_fail("composite_direct", case, "; ".join(bad), f"composite_direct:{second}:{'agg' if agg else 'perkey'}:{bad[0].split(' ')[0]}")
+        else:
+            run.oracle_ok("composite_direct")
+
+
+def autoregressive_oracle(run):
+    """ProbabilisticTensorDictSequential(return_composite=True) with a second head whose parameters are computed from the first
+    head's sample: the log-probability of an output tensordict is log p(a) + log p(b | a) *for the a and b found in that
+    tensordict* — what the modules wrote when they sampled —, aggregated or per head, under every interaction type."""
+    from tensordict import TensorDict
+    from tensordict.nn import (ProbabilisticTensorDictModule as PM, ProbabilisticTensorDictSequential as PS, TensorDictModule as TM,
+                               set_composite_lp_aggregate, set_interaction_type)
+    from tensordict.nn.probabilistic import InteractionType
+
+    def chain(nested):
+        first = [TM(lambda x: (x, torch.ones_like(x)), in_keys=["x"], out_keys=[("pa", "loc"), ("pa", "scale")]),
+                 PM(in_keys={"loc": ("pa", "loc"), "scale": ("pa", "scale")}, out_keys=["a"], distribution_class=D.Normal,
+                    return_log_prob=True, log_prob_key="a_lp")]
+        rest = [TM(lambda a: (10 * a, torch.ones_like(a)), in_keys=["a"], out_keys=[("pb", "loc"), ("pb", "scale")]),
+                PM(in_keys={"loc": ("pb", "loc"), "scale": ("pb", "scale")}, out_keys=["b"], distribution_class=D.Normal,
+                   return_log_prob=True, log_prob_key="b_lp")]
+        if nested:
+            return PS(PS(*first, return_composite=True), *rest, return_composite=True)
+        return PS(*first, *rest, return_composite=True)
+    for nested, agg, it in itertools.product([False, True], [True, False], list(InteractionType)):
+        case = ["autoregressive", "nested" if nested else "flat", "aggregate" if agg else "per-key", str(it)]
+        run.case(("autoregressive", nested, agg, str(it)))
+        torch.manual_seed(6)
+        td = TensorDict({"x": torch.randn(4)}, [4])
+        try:
+            with warnings.catch_warnings():
+                warnings.simplefilter("ignore")
+                with time_limit(60), set_composite_lp_aggregate(agg), set_interaction_type(it):
+                    seq = chain(nested)
+                    out = seq(td.clone())
+                    lp = seq.log_prob(out.clone())
+        except TimeoutError:
+            raise
+        except Exception as e:  # noqa: BLE001
+            if it == InteractionType.MEDIAN:      # torch's Normal has no median
+                run.count("prob.unavailable", f"autoregressive/{nested}/{agg}/{it}:{type(e).__name__}")
+            else:
+                run.oracle_fail("probabilistic", case, f"raised {type(e).__name__}: {str(e)[:120]}", f"autoregressive:raised:{type(e).__name__}")
+            continue
+        a, b = out["a"], out["b"]
+        want_a = D.Normal(td["x"], 1.0).log_prob(a)
+        want_b = D.Normal(10 * a, 1.0).log_prob(b)
+        bad = []
+        if not (torch.allclose(out["a_lp"], want_a) and torch.allclose(out["b_lp"], want_b)):
+            bad.append("the log-probs written by the modules are not those of the heads at the written samples")
+        if isinstance(lp, torch.Tensor):
+            if lp.shape != want_a.shape or not torch.allclose(lp, want_a + want_b):
+                bad.append("log_prob(output) is not log p(a) + log p(b | a) at the samples of the output")
+        else:
+            ga = lp.get("a_log_prob", None)
+            gb = lp.get("b_log_prob", None)
+            if ga is None or gb is None:
+                bad.append(f"per-head entries missing: {sorted(map(str, lp.keys(True, True)))}")
+            else:
+                if not torch.allclose(ga, want_a):
+                    bad.append("a_log_prob is not log p(a)")
+                if not torch.allclose(gb, want_b):
+                    bad.append("b_log_prob is not log p(b | a) at the a of the tensordict")
+        if bad:
+            run.oracle_fail("probabilistic", case, "; ".join(bad), f"autoregressive:{'agg' if agg else 'perkey'}:{it}")
+        else:
+            run.oracle_ok("probabilistic")
+
+
+def custom_lp_keys_oracle(run):
+    """custom log_prob_key / log_prob_keys on a module with a CompositeDistribution: the log-probs are written under the
+    advertised names (and hold the heads' log-probs), `module.log_prob(out)` uses the same names"""
+    from tensordict import TensorDict
+    from tensordict.nn import CompositeDistribution, ProbabilisticTensorDictModule, set_composite_lp_aggregate, set_interaction_type
+    from tensordict.nn.probabilistic import InteractionType
+    for agg, ns in itertools.product([True, False], [None, 4]):
+        case = ["custom_lp_keys", "aggregate" if agg else "per-key", ns]
+        run.case(("custom_lp_keys", agg, ns))
+        torch.manual_seed(7)
+        td = TensorDict({"params": {"x": {"loc": torch.randn(3), "scale": torch.rand(3) + 0.5},
+                                    "y": {"loc": torch.randn(3, 2), "scale": torch.rand(3, 2) + 0.5}}}, [3])
+        kw = {"log_prob_key": "my_lp"} if agg else {"log_prob_keys": ["lx", "ly"]}
+        try:
+            with warnings.catch_warnings():
+                warnings.simplefilter("ignore")
+                with time_limit(60), set_composite_lp_aggregate(agg), set_interaction_type(InteractionType.RANDOM):
+                    mod = ProbabilisticTensorDictModule(in_keys=["params"], out_keys=["x", "y"], distribution_class=CompositeDistribution,
+                                                        distribution_kwargs={"distribution_map": {"x": D.Normal, "y": D.Normal}},
+                                                        return_log_prob=True, num_samples=ns, **kw)
+                    out = mod(td.clone())
+                    lp = mod.log_prob(out.clone())
+                    adv = {k if isinstance(k, str) else tuple(k) for k in mod.out_keys}
+        except TimeoutError:
+            raise
+        except Exception as e:  # noqa: BLE001
+            run.oracle_fail("probabilistic_frame", case, f"raised {type(e).__name__}: {str(e)[:120]}", "custom_lp_keys:raised")
+            continue
+        p = td["params"]
+        lx = D.Normal(p["x", "loc"], p["x", "scale"]).log_prob(out["x"])
+        ly = D.Normal(p["y", "loc"], p["y", "scale"]).log_prob(out["y"])
+        bad = []
+        written = {k for k in out.keys(True, True) if k not in set(td.keys(True, True))}
+        extra = written - adv - ({"x_log_prob", "y_log_prob"} if agg else set())     # (aggregate: recorded finding)
+        if adv - written or extra:
+            bad.append(f"advertised but not written {sorted(map(str, adv - written))}; written but not advertised {sorted(map(str, extra))}")
+        else:
+            if agg:
+                if not torch.allclose(out["my_lp"], lx + ly.sum(-1)) or not isinstance(lp, torch.Tensor) or not torch.allclose(lp, lx + ly.sum(-1)):
+                    bad.append("aggregated log-prob under the custom key")
+            else:
+                if not (torch.allclose(out["lx"], lx) and torch.allclose(out["ly"], ly)):
+                    bad.append("per-head log-probs under the custom keys")
+                if isinstance(lp, torch.Tensor) or set(lp.keys()) != {"lx", "ly"}:
+                    bad.append("module.log_prob does not use the custom keys")
+        if bad:
+            run.oracle_fail("probabilistic_frame", case, "; ".join(bad), "custom_lp_keys:" + ("agg" if agg else "perkey"))
+        else:
+            run.oracle_ok("probabilistic_frame")
 
 
 def context_oracle(run):
@@ -432,4 +647,7 @@ def run_prob(run, drv, ask):
     decision_stream(run, drv, ask)
     real_oracle(run)
     seq_oracle(run, drv)
+    composite_direct_oracle(run)
+    autoregressive_oracle(run)
+    custom_lp_keys_oracle(run)
     context_oracle(run)
